@@ -288,15 +288,20 @@ theorem parseBody_err (i : BindIn) :
     (∀ e, i.respErr = some e → ((parseBody i).err = none ∨ (parseBody i).err = some e) ∧ (parseBody i).respErr = some e) ∧
     (i.respErr = none →
       ((parseBody i).err = none ∧ (parseBody i).respErr = none) ∨
-      ((parseBody i).err = some .read ∧ (parseBody i).respErr = some .read) ∨
+      (∃ e, (parseBody i).err = some e ∧ (parseBody i).respErr = some e) ∨
       ((parseBody i).err = some .unmarshal ∧ (parseBody i).respErr = none)) := by
   obtain ⟨http, sT, eT, cE, respErr, cached, slots⟩ := i
   rcases http with _ | h
   · simp [parseBody]
   · rcases hsel : selectTarget ⟨some h, sT, eT, cE, respErr, cached, slots⟩ with _ | t
     · simp [parseBody, hsel]
-    · rcases respErr with _ | e <;> cases cached <;> cases hr : h.readOK <;> cases hc : codecOK h <;>
-        simp [parseBody, hsel, hr, hc]
+    · have hb : h.bodyOK = false → ∃ e, h.acqErr = some e := by
+        intro hb; unfold Http.bodyOK at hb
+        cases ha : h.acqErr with
+        | none => simp [ha] at hb
+        | some e => exact ⟨e, rfl⟩
+      rcases respErr with _ | e <;> cases cached <;> cases hr : h.bodyOK <;> cases hc : codecOK h <;>
+        simp [parseBody, hsel, hr, hc] <;> (obtain ⟨e, he⟩ := hb hr; simp [he])
 
 /-- The error recorded after the first (built-in) element of the client loop. -/
 def parsedErr (p : Parsed) : Option Err :=
@@ -315,7 +320,7 @@ theorem parseResp_step (s : Stack) (r : Resp) :
   have hb : (bindIn s r).respErr = r.err := rfl
   rw [hb] at h
   rcases hre : r.err with _ | e0
-  · rcases h.2 hre with ⟨h1, h2⟩ | ⟨h1, h2⟩ | ⟨h1, h2⟩
+  · rcases h.2 hre with ⟨h1, h2⟩ | ⟨e, h1, h2⟩ | ⟨h1, h2⟩
     · simp only [h1, h2, newErrEv]; exact Step.refl _
     · simp only [h1, newErrEv]; exact Step.raise _ _
     · simp only [h1, newErrEv]; exact Step.raise _ _
@@ -426,7 +431,7 @@ theorem parseBody_ret_respErr (i : BindIn) (e : Err) (h : (parseBody i).err = so
     orE (parseBody i).respErr (some e) = some e := by
   have hh := parseBody_err i
   rcases hre : i.respErr with _ | e0
-  · rcases hh.2 hre with ⟨h1, _⟩ | ⟨h1, h2⟩ | ⟨h1, h2⟩
+  · rcases hh.2 hre with ⟨h1, _⟩ | ⟨e1, h1, h2⟩ | ⟨h1, h2⟩
     · rw [h1] at h; cases h
     · rw [h1] at h; cases h; simp [h2]
     · rw [h1] at h; cases h; simp [h2]
